@@ -248,7 +248,7 @@ theorem literal_dot (s : List Char) :
 
 theorem version_core_eq (s : List Char) : Semver.Gen.version_core s = versionCore s := by
   unfold Semver.Gen.version_core versionCore
-  simp only [Winnow.context, Winnow.map, Winnow.seq5, bind_def, pure_def, number_eq, literal_dot]
+  simp only [Winnow.context, Winnow.map, Winnow.seq5, Winnow.preceded, Winnow.terminated, bind_def, pure_def, number_eq, literal_dot]
   cases number s with
   | err e => rfl
   | ok a r1 =>
@@ -292,7 +292,8 @@ theorem opt_vV (s : List Char) :
 theorem version_eq (s : List Char) : Semver.Gen.version s = versionP s := by
   unfold Semver.Gen.version versionP
   obtain ⟨x, hx⟩ := opt_vV s
-  simp only [Winnow.context, Winnow.map, Winnow.seq6, bind_def, pure_def, hx, space0_eq, version_core_eq, extras_eq]
+  simp only [Winnow.context, Winnow.map, Winnow.seq6, Winnow.seq2, Winnow.preceded, Winnow.terminated, bind_def, pure_def, hx,
+    space0_eq, version_core_eq, extras_eq]
   cases versionCore (dropBlanks (stripVV s)) with
   | err e => rfl
   | ok abc r =>
